@@ -139,7 +139,7 @@ def run(tier, seed, replay=None):
     from codelimit.common import Scanner
     from codelimit.common.Configuration import Configuration
     chk = Check("C11", tier, seed)
-    model_ok = chk.proof_stage(["Fs/FsScan.vo", "Fs/FsProofs.vo"])
+    model_ok = chk.proof_stage(["Fs/FsScan.vo", "Fs/FsProofs.vo", "Scope/TieProofs.vo"])
     rng = chk.rng
     cases = []
     tmp = tempfile.mkdtemp(prefix="verif_c11_")
